@@ -203,6 +203,16 @@ pub struct F33 {
     pub w: F32,
 }
 
+/// a fixed-size list (its visitor stops after the last item, before the parent's end tag) next to two growable lists
+#[derive(Debug, Clone, PartialEq, Serialize, Deserialize)]
+pub struct F34 {
+    pub p: (u32, u32),
+    #[serde(default)]
+    pub x: Vec<u32>,
+    #[serde(default)]
+    pub q: Vec<u32>,
+}
+
 /// a string that serializes itself through `Serializer::collect_str` (the way chrono / url / uuid style types and
 /// `serialize_with` helpers do); deserialized as a plain string
 #[derive(Debug, Clone, PartialEq, Default, Deserialize)]
@@ -339,7 +349,7 @@ pub struct H07 {
     pub v: Vec<Option<Choice>>,
 }
 
-pub const TYPES: &[&str] = &["F01", "F02", "F03", "F04", "F05", "F07", "F08", "F11", "F15", "F16", "F17", "F18", "F19", "F20", "F22", "F23", "F24", "F25", "F26", "F27", "F28", "F29", "F30", "F31", "F32", "F33", "H01", "H02", "H05", "H06", "H07"];
+pub const TYPES: &[&str] = &["F01", "F02", "F03", "F04", "F05", "F07", "F08", "F11", "F15", "F16", "F17", "F18", "F19", "F20", "F22", "F23", "F24", "F25", "F26", "F27", "F28", "F29", "F30", "F31", "F32", "F33", "F34", "H01", "H02", "H05", "H06", "H07"];
 
 /// Apply `$body` with `T` bound to the family type named `$name`.
 #[macro_export]
@@ -370,6 +380,7 @@ macro_rules! with_type {
             "F31" => { type $T = $crate::family::F31; $body }
             "F32" => { type $T = $crate::family::F32; $body }
             "F33" => { type $T = $crate::family::F33; $body }
+            "F34" => { type $T = $crate::family::F34; $body }
             "F27" => { type $T = $crate::family::F27; $body }
             "F28" => { type $T = $crate::family::F28; $body }
             "H01" => { type $T = $crate::family::H01; $body }
